@@ -89,7 +89,7 @@ fn base_weight(c: Class, kind: Kind) -> u32 {
         Binary => 16,
         Ite => 6,
         Cof => 4,
-        Quant => if kind.has_quant() { 8 } else { 0 },
+        Quant => if kind.has_quant() { 8 } else if kind == Kind::Zbdd { 4 } else { 0 },
         Subst => if kind.has_quant() { 5 } else { 0 },
         Pick => if b { 4 } else { 0 },
         SatCount => if b { 4 } else { 0 },
@@ -300,6 +300,15 @@ impl<'a> Gen<'a> {
         self.push(i);
     }
     fn quant(&mut self) {
+        if self.model.kind == Kind::Zbdd && self.model.n > 0 && self.rng.bool() {
+            // ZBDDs implement BooleanFunction::restrict, but no quantification
+            let Some(a) = self.pick_live() else { return self.leaf() };
+            let d = self.dest();
+            let m = (1u32 << self.model.n) - 1;
+            let pos = self.rng.next() as u32 & m;
+            let neg = self.rng.next() as u32 & m & !pos;
+            return self.push(Instr::Restrict { d, a, pos, neg });
+        }
         if !self.model.kind.has_quant() || self.model.n == 0 {
             return self.binary();
         }
